@@ -5,6 +5,7 @@
 //! tier, under AddressSanitizer.
 use mc::bvobs::quiet;
 use mc::gens::*;
+use mc::iterops::*;
 use mc::run::*;
 use mc::trees::*;
 use mc::vecs::*;
@@ -30,10 +31,79 @@ const METHODS: &[&str] = &[
     "n_levels", "sigma", "rank_prefetch", "next_back",
     // position iterators
     "with_pos",
+    // Iterator / DoubleEndedIterator / ExactSizeIterator methods an implementation may override (iter_totality)
+    "nth", "nth_back", "fold", "rfold", "try_fold", "try_rfold", "count", "last", "size_hint", "min", "max", "sum", "find", "rfind",
+    "position", "rposition", "all", "any", "advance_by", "advance_back_by", "skip", "step_by", "for_each", "is_sorted", "eq",
 ];
+
+fn op_name(op: IterOp) -> &'static str {
+    match op {
+        IterOp::Count => "count",
+        IterOp::Last => "last",
+        IterOp::Fold => "fold",
+        IterOp::Max => "max",
+        IterOp::Eq => "eq",
+        IterOp::Find(_) | IterOp::FindNone => "find",
+        IterOp::Position(_) => "position",
+        IterOp::All => "all",
+        IterOp::Nth(_) => "nth",
+        IterOp::Skip(_) => "skip",
+        IterOp::StepBy(_) => "step_by",
+        IterOp::RFold => "rfold",
+        IterOp::RFind(_) => "rfind",
+        IterOp::NthBack(_) => "nth_back",
+        IterOp::RevNth(_) => "nth_back",
+        IterOp::RPosition(_) => "rposition",
+    }
+}
+
+fn op_arg(op: IterOp) -> u64 {
+    match op {
+        IterOp::Find(k) | IterOp::Position(k) | IterOp::Nth(k) | IterOp::Skip(k) | IterOp::StepBy(k) | IterOp::RFind(k) | IterOp::NthBack(k) | IterOp::RevNth(k) | IterOp::RPosition(k) => k as u64,
+        _ => 0,
+    }
+}
+
+fn totality_ops(n: usize, de: bool) -> Vec<IterOp> {
+    let mut v = vec![IterOp::Count, IterOp::Last, IterOp::Fold, IterOp::Max, IterOp::FindNone, IterOp::All, IterOp::Position(UMAX), IterOp::Skip(UMAX), IterOp::StepBy(UMAX)];
+    for k in [0, 1, n.wrapping_sub(1), n, n.wrapping_add(1), UMAX / 2, UMAX - 1, UMAX] {
+        v.push(IterOp::Nth(k));
+        if de {
+            v.push(IterOp::NthBack(k));
+            v.push(IterOp::RevNth(k));
+        }
+    }
+    if de {
+        v.extend([IterOp::RFold, IterOp::RFind(UMAX), IterOp::RPosition(UMAX)]);
+    }
+    v
+}
+
+fn prefixes(n: usize) -> Vec<usize> {
+    let mut v = vec![0, 1, n.saturating_sub(1), n, n + 2];
+    v.sort_unstable();
+    v.dedup();
+    v
+}
+
+/// Every overridable iterator method with arguments up to usize::MAX, after prefixes that end before, at and after
+/// exhaustion; the operation is followed by len() / next() / len() (iterops::apply_fwd): nothing may panic.
+fn iter_totality<T: Copy + Ord, I: Iterator<Item = T>>(ctx: &mut Ctx, n: usize, len_of: Option<fn(&I) -> usize>, mk: impl Fn() -> I) {
+    for a in prefixes(n) {
+        for op in totality_ops(n, false) {
+            call(ctx, op_name(op), a as u128, op_arg(op), 0, false, || {
+                let mut it = mk();
+                advance(&mut it, a);
+                apply_fwd(it, &[], op, len_of).nums.len()
+            });
+        }
+    }
+}
 
 fn idx_alphabet(n: usize) -> Vec<usize> {
     let mut v = vec![0, 1, 2, n.wrapping_sub(1), n, n.wrapping_add(1), 63, 64, 65, 255, 256, 257, 511, 512, 513, 2047, 2048, 2049, 4095, 4096, 4097, 1 << 32, UMAX / 2, UMAX - 1, UMAX];
+    v.extend(mc::sweep::wrap_args(n));
+    v.extend([(1usize << 58) + n.saturating_sub(1), (1 << 61) + n.saturating_sub(1), (1 << 61) + n / 8, (1 << 58) + n / 64]);
     v.sort_unstable();
     v.dedup();
     v
@@ -215,6 +285,10 @@ macro_rules! bv_readers {
             }
             c
         });
+        iter_totality(&mut *$ctx, $n, Some(|i: &qwt::bitvector::BitVectorIter| i.len()), || b.iter());
+        let n1 = b.count_ones();
+        iter_totality(&mut *$ctx, n1, None, || b.ones());
+        iter_totality(&mut *$ctx, $n - n1, None, || b.zeros());
     }};
 }
 
@@ -258,6 +332,8 @@ fn zoo_bitvector(ctx: &mut Ctx) {
             c
         });
         call(ctx, "into_iter", 1, 0, 0, false, || (&*b).into_iter().count());
+        iter_totality(ctx, n, Some(|i: &qwt::bitvector::BitVectorIntoIter| i.len()), || b.clone().into_iter());
+        iter_totality(ctx, n, Some(|i: &qwt::bitvector::BitVectorIter| i.len()), || (&*b).into_iter());
         call(ctx, "as_ref", 0, 0, 0, false, || AsRef::<BitVector>::as_ref(b).len());
     }
     // the position iterator has public constructors over an arbitrary word slice and bit count
@@ -439,6 +515,9 @@ fn zoo_qvector(ctx: &mut Ctx) {
         });
         call(ctx, "into_iter", 0, 0, 0, false, || q.clone().into_iter().count());
         call(ctx, "into_iter", 1, 0, 0, false, || (&*q).into_iter().count());
+        iter_totality(ctx, n, None, || q.iter());
+        iter_totality(ctx, n, None, || q.clone().into_iter());
+        iter_totality(ctx, n, None, || (&*q).into_iter());
         call(ctx, "as_ref", 0, 0, 0, false, || AsRef::<QVector>::as_ref(q).len());
         common(ctx, q);
     }
@@ -509,6 +588,13 @@ fn zoo_quadrs<X: QuadRS>(ctx: &mut Ctx) {
         call(ctx, "iter", 0, 0, 0, false, || t.iter_vec().len());
         call(ctx, "into_iter", 0, 0, 0, false, || t.clone().into_iter_vec().len());
         call(ctx, "into_iter", 1, 0, 0, false, || t.ref_into_iter_vec().len());
+        for which in 0..3u8 {
+            for a in prefixes(n) {
+                for op in totality_ops(n, false) {
+                    call(ctx, op_name(op), a as u128, op_arg(op), which as u64, false, || t.iter_op(which, a, &[], op).nums.len());
+                }
+            }
+        }
         common(ctx, t);
     }
 }
@@ -602,6 +688,13 @@ fn zoo_darray<const S0: bool>(ctx: &mut Ctx) {
         call(ctx, "ones", 0, 0, 0, false, || t.ones().count());
         call(ctx, "zeros", 0, 0, 0, false, || t.zeros().count());
         call(ctx, "iter", 0, 0, 0, false, || t.iter().count());
+        {
+            let n = t.len();
+            let n1 = t.count_ones();
+            iter_totality(ctx, n, Some(|i: &qwt::bitvector::BitVectorIter| i.len()), || t.iter());
+            iter_totality(ctx, n1, None, || t.ones());
+            iter_totality(ctx, n - n1, None, || t.zeros());
+        }
         common(ctx, t);
     }
     ctx.case_desc = serde_json::json!({"Zoo": {"ty": tyname, "elem": "", "state": "constructors"}});
@@ -699,6 +792,13 @@ fn zoo_tree<X: Tree>(ctx: &mut Ctx) {
                 }
                 c
             });
+            for a in prefixes(n) {
+                for b in [0usize, 1, n + 1] {
+                    for op in totality_ops(n, true) {
+                        call(ctx, op_name(op), a as u128, op_arg(op), (which as u64) * 10 + b.min(2) as u64, false, || t.iter_op(which, a, b, &[], op).nums.len());
+                    }
+                }
+            }
         }
         common(ctx, t);
     }
